@@ -22,6 +22,10 @@ CHECKS = {
    "chain monitor at every state of every cluster search plus a dedicated explicit-state BFS over retention histories with a removed-set oracle per sweep",
    "Dedicated BFS (depth 4 quick / 5 thorough) over commits, monotone ageing of LTX files, high-water-mark settings around the current TXID, sweeps with retention 0 / 1 ns / 10 min on primary and replica, with and without a backup client, partitions, restarts, drops, re-creation, import and a lagging replica behind a trimmed log: every sweep's removed set must exclude the newest file, contain only files older than the period, and with a backup client only files below the high-water mark; the chain monitor (contiguity, pre=post linkage, per-file CRC, end = DB.Pos(), no temporary file listed, snapshot leaves only itself) is evaluated on every node at every state.",
    "Same lab as C01. Sweep racing commit/stream at lock granularity is not claimed here.", "§4 C09"),
+ "C10": ("exploration", "E2-schedules",
+   "stateless DFS over thread schedules of the real implementation inside a synctest bubble with iterative preemption bounding (bound 2 quick / 3 thorough); points at every non-trivial RWMutex operation, internal page write/truncate and client WAL write",
+   "A snapshot / export / GET /export thread, a writer connection (two transactions) and a checkpointer connection (WAL: PASSIVE then RESTART; thorough adds LiteFS's own recovery) run over one real DB in both journal modes; every schedule with at most the stated number of preemptions is executed from scratch (about 5x10^4 schedules quick); whenever the snapshot/export returns success its bytes must equal the reference image of exactly the position it reports (for GET /export: of some committed position).",
+   "Cooperative scheduler: data races below lock granularity are not visible; timers fire only when no thread is enabled; one writer connection.", "§4 C10"),
  "C12": ("model_checking", "E1-closure+fake-clock",
    "explicit-state BFS to closure over the real RWMutex (private-state key) vs POSIX one-byte model; exhaustive blocking-variant matrix on the synctest fake clock",
    "Every operation from every reachable state of one real RWMutex with four guards is executed and compared with the reader/writer rules (20 states x 20 operations, closure reached); blocking Lock/RLock are decided for every holder/waiter/event/timing combination on a fake clock. Complete for the stated alphabet, which is the property's own quantifier.",
@@ -81,8 +85,12 @@ manifest = {
    "add_only": True,
  },
  "engines": [
-   {"name": "E1", "path": "/verif/vlib, /verif/lab", "kind_free_text": "explicit-state / exhaustive-input search on the real implementation: replay-from-scratch successors, canonical keys incl. private state, worker subprocess pool",
+   {"name": "E1", "path": "/verif/vlib, /verif/lab, /verif/hist, /verif/prog", "kind_free_text": "explicit-state / exhaustive-input search on the real implementation: replay-from-scratch successors, canonical keys incl. private state, worker subprocess pool",
     "serves_properties": sorted(k for k, v in CHECKS.items() if v[1].startswith("E1"))},
+   {"name": "E2", "path": "/verif/sched", "kind_free_text": "schedule explorer: harness threads are real goroutines in a testing/synctest bubble, released one at a time at hooked points; stateless DFS with iterative preemption bounding, subtree sharding over worker subprocesses, replay by choice sequence",
+    "serves_properties": sorted(k for k, v in CHECKS.items() if v[1].startswith("E2"))},
+   {"name": "E3", "path": "/verif/checks/c05, /verif/lab/crash.go", "kind_free_text": "crash-point enumeration: data-directory image before every mutation of a history, each reopened and judged",
+    "serves_properties": sorted(k for k, v in CHECKS.items() if v[1].startswith("E3"))},
  ],
  "checks": [],
  "not_applicable": [{"property_id": k, "reason": v} for k, v in sorted(NOT_YET.items())],
